@@ -32,6 +32,9 @@ func init() {
 
 const defaultMsize = 1048576 + 24
 
+// ExtraC12 lets the client-side lab add its negotiation cases to the C12 engine.
+var ExtraC12 []func(tier string, seed int64) []core.Case
+
 func c12Cases(tier string, seed int64) []core.Case {
 	var cases []core.Case
 	smsizes := []uint32{24, 25, 64, 100, 4096, 8192, 65536, 0}
@@ -46,6 +49,9 @@ func c12Cases(tier string, seed int64) []core.Case {
 	for _, dotu := range []bool{false, true} {
 		dotu := dotu
 		cases = append(cases, core.Case{ID: fmt.Sprintf("ufs/dotu=%v", dotu), Run: func(ctx *core.Ctx) core.Result { return c12Ufs(ctx, dotu) }})
+	}
+	for _, f := range ExtraC12 {
+		cases = append(cases, f(tier, seed)...)
 	}
 	return cases
 }
